@@ -350,6 +350,9 @@ pub open spec fn path_end(start: real, s: Seq<f64>) -> real { if s.len() == 0 { 
 pub open spec fn path_len(start: real, s: Seq<f64>) -> real decreases s.len() {
     if s.len() == 0 { 0real } else { path_len(start, s.drop_last()) + rabs(path_end(start, s.drop_last()) - rv(s.last())) }
 }
+pub proof fn lemma_path_push(start: real, s: Seq<f64>, x: f64)
+    ensures path_len(start, s.push(x)) == path_len(start, s) + rabs(path_end(start, s) - rv(x)), path_end(start, s.push(x)) == rv(x)
+{ assert(s.push(x).drop_last() =~= s); }
 pub proof fn lemma_path_concat(start: real, a: Seq<f64>, b: Seq<f64>)
     ensures path_len(start, a + b) == path_len(start, a) + path_len(path_end(start, a), b),
             path_end(start, a + b) == path_end(path_end(start, a), b),
